@@ -19,7 +19,7 @@ func init() {
 }
 
 func runC10(c *fw.Ctx) {
-	c.Rule = "seeded pairs of node histories: two nodes issue 10-50 real mutator calls (incl. bulk removals) while each gossip broadcast between them is delivered or lost forever with a per-scenario loss rate (0..100%); then LocalState/MergeRemoteState is exercised A->B, B->A, both ways and into a fresh node (in a fifth of the scenarios nine clock hours after the last change). A per-node reference LWW map (tombstones included) is maintained from the broadcast entries each node issued or received; after A->B the listing of B must equal the visible part of merge(ref(A), ref(B)); a fresh node must list exactly what A lists; after both directions A and B list the same. Plus retained-message histories under clocks that advance only every 2-4 calls (the two nodes' clocks never coincide), partly lost gossip, exchange in both directions: both nodes list the same. distinct = (scenario calls, loss pattern, exchange kind); non-trivial = the sender holds >=2 entries of one kind or a removal the receiver never saw"
+	c.Rule = "seeded pairs of node histories: two nodes issue 10-50 real mutator calls (incl. bulk removals) while each gossip broadcast between them is delivered or lost forever with a per-scenario loss rate (0..100%); then LocalState/MergeRemoteState is exercised A->B, B->A, both ways and into a fresh node (in a fifth of the scenarios nine clock hours after the last change; with the join flag set in half of them; in a third of them a snapshot was already taken half-way through the history). A per-node reference LWW map (tombstones included) is maintained from the broadcast entries each node issued or received; after A->B the listing of B must equal the visible part of merge(ref(A), ref(B)); a fresh node must list exactly what A lists; after both directions A and B list the same. Plus retained-message histories under clocks that advance only every 2-4 calls (the two nodes' clocks never coincide), partly lost gossip, exchange in both directions: both nodes list the same. distinct = (scenario calls, loss pattern, exchange kind); non-trivial = the sender holds >=2 entries of one kind or a removal the receiver never saw"
 	c.Assume("a node's own entries are taken from the broadcasts it queued (C09 establishes that they describe its local changes)")
 	c.Assume("timestamps distinct per key (scenarios with an exact tie on a key are counted and skipped)")
 	n := c.Pick(6000, 60000)
@@ -35,6 +35,11 @@ func runC10(c *fw.Ctx) {
 		steps := 10 + rg.Intn(41)
 		lost, unseenRemoval := 0, false
 		for i := 0; i < steps; i++ {
+			if i == steps/2 && s%3 == 0 {
+				// an earlier exchange took a snapshot of both nodes; what they hand out later must be current
+				w.nodes[0].S.Distributor().LocalState(false)
+				w.nodes[1].S.Distributor().LocalState(false)
+			}
 			nb := len(w.all)
 			w.step(true)
 			for k := nb; k < len(w.all); k++ {
@@ -98,11 +103,13 @@ func runC10(c *fw.Ctx) {
 			kindName += " (9 h later)"
 			c.Observe("exchanges_after_nine_hours", 1)
 		}
-		snap := w.nodes[a].S.Distributor().LocalState(false)
+		// the exchange is the periodic one or the one that accompanies a (re-)join: both carry everything
+		join := s%2 == 1
+		snap := w.nodes[a].S.Distributor().LocalState(join)
 		c.Observe("snapshot_bytes", len(snap))
 		switch kind {
 		case 0, 1:
-			w.nodes[b].S.Distributor().MergeRemoteState(snap, false)
+			w.nodes[b].S.Distributor().MergeRemoteState(snap, join)
 			exp := refs[b].Clone()
 			exp.Merge(refs[a])
 			if exp.Ties > 0 {
@@ -114,9 +121,9 @@ func runC10(c *fw.Ctx) {
 					map[string]interface{}{"scenario": s, "exchange": kindName, "lost_broadcasts": lost, "calls": w.trace, "observed": got, "expected": want})
 			}
 		case 2:
-			snapB := w.nodes[b].S.Distributor().LocalState(false)
-			w.nodes[b].S.Distributor().MergeRemoteState(snap, false)
-			w.nodes[a].S.Distributor().MergeRemoteState(snapB, false)
+			snapB := w.nodes[b].S.Distributor().LocalState(join)
+			w.nodes[b].S.Distributor().MergeRemoteState(snap, join)
+			w.nodes[a].S.Distributor().MergeRemoteState(snapB, join)
 			exp := refs[b].Clone()
 			exp.Merge(refs[a])
 			if exp.Ties > 0 {
@@ -133,7 +140,7 @@ func runC10(c *fw.Ctx) {
 			}
 		case 3:
 			fresh := kit.NewReplica(9)
-			fresh.S.Distributor().MergeRemoteState(snap, false)
+			fresh.S.Distributor().MergeRemoteState(snap, join)
 			if got, want := fresh.Canon().String(), w.nodes[a].Canon().String(); got != want {
 				c.Violation("fresh-node-differs", fmt.Sprintf("scenario %d: a fresh node that merged the snapshot lists %s; the sender lists %s", s, got, want),
 					map[string]interface{}{"scenario": s, "calls": w.trace, "observed": got, "expected": want})
